@@ -792,17 +792,21 @@ pub fn run(ctx: &Ctx) -> ! {
     }
     concurrent_batch(ctx, &mut rep, &mut ev, &mut done, &mut batch_no, &mut samples);
     println!("first concurrent batch: {done} sessions ({:.1}s)", ctx.start.elapsed().as_secs_f64());
+    // the rest alternates between the plain sweep and further concurrent/history batches, so that neither starves
+    // the other when the budget runs out
     let mut plain_pos = 0;
-    while plain_pos < sweep_plain.0.len() && !ctx.out_of_time() {
-        let end = (plain_pos + 600).min(sweep_plain.0.len());
-        let _ = judge_batch(ctx, &sweep_plain.0[plain_pos..end], &sweep_plain.1[plain_pos..end], &g, &mut rep, &mut ev);
-        sweep_done += end - plain_pos;
-        plain_pos = end;
+    while (plain_pos < sweep_plain.0.len() || done < n_sessions) && !ctx.out_of_time() {
+        if plain_pos < sweep_plain.0.len() {
+            let end = (plain_pos + 1200).min(sweep_plain.0.len());
+            let _ = judge_batch(ctx, &sweep_plain.0[plain_pos..end], &sweep_plain.1[plain_pos..end], &g, &mut rep, &mut ev);
+            sweep_done += end - plain_pos;
+            plain_pos = end;
+        }
+        if done < n_sessions && !ctx.out_of_time() {
+            concurrent_batch(ctx, &mut rep, &mut ev, &mut done, &mut batch_no, &mut samples);
+        }
     }
-    println!("plain sweep: {plain_pos} of {} sessions ({:.1}s)", sweep_plain.0.len(), ctx.start.elapsed().as_secs_f64());
-    while done < n_sessions && !ctx.out_of_time() {
-        concurrent_batch(ctx, &mut rep, &mut ev, &mut done, &mut batch_no, &mut samples);
-    }
+    println!("plain sweep: {plain_pos} of {} sessions, concurrent/history sessions: {done} ({:.1}s)", sweep_plain.0.len(), ctx.start.elapsed().as_secs_f64());
     let sweep_sessions = sweep_done;
     ev.extra.insert("hash_sweep".into(), serde_json::json!({"seeds_per_plain_case": s_plain, "seeds_per_hash_amplifier_case": s_hash, "sessions_executed": sweep_done, "sessions_planned": sweep_hash.0.len() + sweep_plain.0.len()}));
     ev.extra.insert("concurrent_history_sessions".into(), (done as u64).into());
